@@ -127,25 +127,25 @@ func (h *httpSpec) build(keyConfigured bool) (req []byte, class string, authoris
 }
 
 type httpResult struct {
-	spec      *httpSpec
-	class     string
-	auth      bool
-	resp      []byte
-	dialed    bool
-	closedBy  string // "client-early" | "server" | "timeout"
-	started   time.Duration
-	ended     time.Duration
-	done      bool
-	sentAll   bool
-	alone     bool // no other exchange was in flight when it started
+	spec     *httpSpec
+	class    string
+	auth     bool
+	resp     []byte
+	dialed   bool
+	closedBy string // "client-early" | "server" | "timeout"
+	started  time.Duration
+	ended    time.Duration
+	done     bool
+	sentAll  bool
+	alone    bool // no other exchange was in flight when it started
 }
 
 type c16Plan struct {
 	sysPlan
-	HTTP    []httpSpec `json:"http"` // referenced by events of kind "http" through ev.Cols (index)
-	Addr    string     `json:"addr"`
-	UseKey  bool       `json:"use_key"`
-	Unsafe  bool       `json:"unsafe"`
+	HTTP   []httpSpec `json:"http"` // referenced by events of kind "http" through ev.Cols (index)
+	Addr   string     `json:"addr"`
+	UseKey bool       `json:"use_key"`
+	Unsafe bool       `json:"unsafe"`
 	// UnsafeFirst: `--listen-unsafe ADDR0 --listen ADDR` – the later plain --listen wins, so the listener is not unsafe
 	UnsafeFirst bool `json:"unsafe_first"`
 }
